@@ -44,6 +44,18 @@ def bases(tier):
             ir = dict(g)
             ir['w'] = IR.generic_weights(ir, stride=7)
             out.append(('B', ir))
+    # nonterminals whose external node has no edge (pure broadcast axes), used under an arity-3 start symbol:
+    #   S(m1,m2,m3) -> V(m2) U(m1) c(m3);  V(x) -> [nothing];  U(x) -> [nothing] | e(x)
+    bro = {'start': 'S', 'nl': {'T': 2}, 'term': {'c': ('T',), 'e': ('T',)}, 'nt': {'S': ('T', 'T', 'T'), 'V': ('T',), 'U': ('T',)},
+           'rules': [('S', ('T', 'T', 'T'), (0, 1, 2), (('V', (1,)), ('U', (0,)), ('c', (2,)))), ('V', ('T',), (0,), ()), ('U', ('T',), (0,), ()), ('U', ('T',), (0,), (('e', (0,)),))]}
+    bro['w'] = IR.generic_weights(bro, stride=7)
+    out.append(('D', bro))
+    bro2 = dict(bro)
+    bro2['rules'] = [('S', ('T', 'T', 'T'), (0, 1, 2), (('V', (1,)), ('V', (0,)), ('c', (2,)))), ('V', ('T',), (0,), ())]
+    bro2['nt'] = {'S': ('T', 'T', 'T'), 'V': ('T',)}
+    bro2['term'] = {'c': ('T',)}
+    bro2['w'] = IR.generic_weights(bro2, stride=7)
+    out.append(('D', bro2))
     T = IR.recursive_templates()
     for name in T:
         dom = 2 if any(T[name]['term'][t] for t in T[name]['term']) else 1
